@@ -3306,6 +3306,10 @@ class Parameters:
         """
         cls_or_slf = self_.self_or_cls
         param_obj = cls_or_slf.param.objects('existing').get(name)
+        if param_obj and isinstance(cls_or_slf, Parameterized):
+            # as attribute access does: the class Parameter, not a
+            # (possibly older) per-instance copy and its default
+            param_obj = cls_or_slf.param.objects(instance=False).get(name, param_obj)
 
         if not param_obj:
             return getattr(cls_or_slf, name)
@@ -3430,6 +3434,10 @@ class Parameters:
         """
         cls_or_slf = self_.self_or_cls
         param_obj = cls_or_slf.param.objects('existing').get(name)
+        if param_obj and isinstance(cls_or_slf, Parameterized):
+            # as attribute access does: the class Parameter, not a
+            # (possibly older) per-instance copy and its default
+            param_obj = cls_or_slf.param.objects(instance=False).get(name, param_obj)
 
         if not param_obj:
             value = getattr(cls_or_slf,name)
